@@ -1,0 +1,7 @@
+//go:build !verif
+
+package mux
+
+// verifScanPoint is an observation point for the verification harness (/verif).
+// Without the build tag verif it is an empty function that the compiler inlines away.
+func verifScanPoint(string, string) {}
